@@ -74,18 +74,29 @@ def exc_name(e):
     return "Other:" + type(e).__name__
 
 
+_BIG = 10 ** 1000
+
+
+def istr(n):
+    """Decimal text of an int; beyond 1000 digits (Python refuses int->str past 4300 digits)
+    hexadecimal with an `H` mark.  The Lean driver prints the same form."""
+    if -_BIG < n < _BIG:
+        return "%d" % n
+    return ("-" if n < 0 else "") + "H" + "%x" % abs(n)
+
+
 def show_mag(m):
     if isinstance(m, bool):
         return "x:bool"
     if isinstance(m, int):
-        return "i:%d" % m
+        return "i:" + istr(m)
     if isinstance(m, float):
         return "f:%016x" % struct.unpack("<Q", struct.pack("<d", m))[0]
     if isinstance(m, Decimal):
         if not m.is_finite():
             return "d:nonfinite"
         f = Fraction(m)
-        return "d:%d/%d" % (f.numerator, f.denominator)
+        return "d:%s/%s" % (istr(f.numerator), istr(f.denominator))
     if isinstance(m, complex):
         return "x:complex"
     return "x:" + type(m).__name__
@@ -172,13 +183,13 @@ class Session:
         e = p.exponent
         if isinstance(e, float) and e == int(e):
             e = int(e)
-        return "%d:%s" % (p.base, e)
+        return "%d:%s" % (p.base, istr(e) if isinstance(e, int) else e)
 
     def show_unit_rec(self, u):
         return "%s|%s|%s|%s|%s" % (
             self.show_pfx(u.prefix),
-            ",".join("%d:%d" % (self.uid(f), e) for f, e in u.factors.items()),
-            ",".join(str(e) for e in u.dimension.exponents),
+            ",".join("%d:%s" % (self.uid(f), istr(e)) for f, e in u.factors.items()),
+            ",".join(istr(e) for e in u.dimension.exponents),
             ";".join(u.names),
             ";".join(u.symbols),
         )
@@ -221,7 +232,7 @@ class Session:
         bs = hash_str("\n".join("%s=%d" % (n, self.uid(u)) for n, u in Unit._by_symbol.items()))
         pn = hash_str("\n".join("%s=%s" % (n, self.show_pfx(p)) for n, p in Prefix._by_name.items()))
         ps = hash_str("\n".join("%s=%s" % (n, self.show_pfx(p)) for n, p in Prefix._by_symbol.items()))
-        dn = hash_str("\n".join("%s=%s" % (n, ",".join(str(e) for e in d.exponents))
+        dn = hash_str("\n".join("%s=%s" % (n, ",".join(istr(e) for e in d.exponents))
                                 for n, d in Dimension._by_name.items()))
         b = hash_str(",".join(str(i) for i in sorted(self.uid(u) for u in Unit._base)))
         g = hash_str("\n".join(
